@@ -145,7 +145,7 @@ def stream_gen(rng, tier):
         out.append(case_line("%s%d" % (tag, n[0]), *a, **kw))
 
     # (1) exact segmentation (feed): generated frame lists x named + random segmentations, both readers
-    for rep in range(budget(tier, 7, 60)):
+    for rep in range(budget(tier, 12, 60)):
         k = rng.choice([1, 2, 3, 3, 4, 6, 9])
         frames, ups, ids = build_frames(rng, ctr, k, delays=rng.choice(["none", "random", "reverse"]))
         up = rng.choice(["u", "u", "p"])
@@ -176,7 +176,7 @@ def stream_gen(rng, tier):
         if tier == "thorough":
             add("e", cfg("u"), "tcp", "feed", cut(stream, c), [], 3, "0", 0, ids)
     # (4) the REAL listeners over loopback TCP (the kernel may coalesce: the result must not depend on it)
-    for rep in range(budget(tier, 5, 40)):
+    for rep in range(budget(tier, 8, 40)):
         k = rng.choice([1, 2, 3, 4, 6, 8])
         frames, ups, ids = build_frames(rng, ctr, k, delays=rng.choice(["none", "random", "reverse", "reverse"]))
         sg = segmentations(rng, frames, n_random=1)
@@ -190,7 +190,7 @@ def stream_gen(rng, tier):
         for l in ("tcp", "gnet"):
             add("w", cfg("u"), l, "sock", [stream[i:i + 1] for i in range(len(stream))], ups, 2, "0", 1, ids)
     # (5) out-of-order completion, many pipelined queries in one segment
-    for rep in range(budget(tier, 2, 12)):
+    for rep in range(budget(tier, 3, 12)):
         k = rng.choice([5, 8, 12])
         frames, ups, ids = build_frames(rng, ctr, k, delays="reverse", all_forward=True)
         for l in ("tcp", "gnet"):
@@ -234,7 +234,7 @@ def garbage_gen(rng, tier):
     def trunc_q():          # header says one question, the question is cut short
         return frame(struct.pack(">HHHHHH", rng.randrange(65536), 0x0100, 1, 0, 0, 0) + b"\x03abc")
 
-    for rep in range(budget(tier, 10, 120)):
+    for rep in range(budget(tier, 20, 120)):
         nv = rng.choice([0, 0, 1, 2])
         frames, ups, ids = build_frames(rng, ctr, nv)
         valid = b"".join(frames)
